@@ -20,7 +20,9 @@ KINDS = ["tree", "reconv", "reconv", "multi", "multi", "dag", "dag", "wide"]
 
 
 def generate(rng, tier):
-    n = 150 if tier == "quick" else 1200
+    global SHARD
+    SHARD = 20 if tier == "quick" else 40      # quick: more, smaller shards so that all cores are used
+    n = 110 if tier == "quick" else 1200
     out = []
     for i in range(n):
         kind = KINDS[i % len(KINDS)]
